@@ -101,17 +101,21 @@ def generate(repo):
     from grpclib.encoding.base import GRPC_CONTENT_TYPE
     from grpclib.encoding.proto import ProtoCodec
     from harness import peer as P
-    ct = GRPC_CONTENT_TYPE + '+' + ProtoCodec.__content_subtype__
     reply_hex = P.grpc_frame(pr.impl.REPLY).hex()
     rows_in, rows_out = [], []
-    for prog in PROGRAMS:
+    JSON_PROGRAMS = [[], [I], [M], [T5], [M, T0], [I, T5], [T5, C], [M, M], [IX], [MX], [T5X]]
+    plan = [(prog, None) for prog in PROGRAMS] + [(prog, sub) for sub in ('json', 'x.my-codec') for prog in JSON_PROGRAMS]
+    for prog, sub in plan:
+        ct_req = 'application/grpc' if sub is None else 'application/grpc+' + sub
+        ct = GRPC_CONTENT_TYPE + '+' + (sub or ProtoCodec.__content_subtype__)
         for card in ('UU', 'SS'):
             for eof in (True, False):
                 fins = FINS if len(prog) <= 2 else FINS[:1]
                 for fin in fins:
                     if not eof and sum(1 for o in prog if o == R) > 1:
                         continue        # the handler would wait for a second message the probe never sends
-                    obs = pr.run(F.BASE, [o if isinstance(o, str) else list(o) for o in prog], fin, card, eof)
+                    obs = pr.run(F.replaced('content-type', ct_req), [o if isinstance(o, str) else list(o) for o in prog],
+                                 fin, card, eof, codec=sub)
                     if obs['hang'] or obs['end'] in (None, 'not-run', 'cancelled'):
                         raise Unsupported('probe %r did not run to its end: %r' % (prog, obs['end']))
                     try:
@@ -119,8 +123,9 @@ def generate(repo):
                     except KeyError as e:
                         raise Unsupported('call result %s in probe %r' % (e, prog))
                     frames = [frame_term(f, ct, reply_hex) for f in obs['frames']]
-                    rows_in.append('  (%s, %s, [%s], %s)' % (card, 'true' if eof else 'false',
-                                                             '; '.join(op_term(o) for o in prog), fin_term(fin)))
+                    rows_in.append('  (%s, %s, %s, %s, [%s], %s)' % (
+                        card, 'true' if eof else 'false', zs(sub or ProtoCodec.__content_subtype__), zs(ct_req),
+                        '; '.join(op_term(o) for o in prog), fin_term(fin)))
                     rows_out.append('  ([%s], [%s])' % ('; '.join(frames), '; '.join(res)))
     L = []
     L.append('(* GENERATED by tools/facts_C03Probes.py from the behaviour of /repo (%d probe calls) -- do not edit *)'
@@ -130,8 +135,9 @@ def generate(repo):
     L.append('Import ListNotations.')
     L.append('Open Scope Z_scope.')
     L.append('')
-    L.append('(* probe calls on an acceptable request: (cardinality, END_STREAM received, program, ending) *)')
-    L.append('Definition golden_in : list (card * bool * list op * fin0) := [')
+    L.append('(* probe calls on an acceptable request: (cardinality, END_STREAM received, content subtype of the')
+    L.append("   server's codec, content-type of the request, program, ending) *)")
+    L.append('Definition golden_in : list (card * bool * list Z * list Z * list op * fin0) := [')
     L.append(';\n'.join(rows_in))
     L.append('].')
     L.append('(* what the server did: (frames on the stream, result of every call of the program) *)')
